@@ -8,7 +8,7 @@ validated by TLC against spec/TraceAPI.tla.
 """
 import random
 
-from .. import record, runner, tlc
+from .. import config, record, runner, tlc, workertrace
 
 THRESHOLDS = [[1, 3], [1, 2], [2, 3], [1, 1], [3, 10], [7, 10], [4, 5], [5, 7], [41, 100],
               [58, 100], [82, 100], [1, 4], [1, 7], [2, 7], [9, 10]]
@@ -124,6 +124,11 @@ def run_case(item):
     tid, case = item
     obs, result, events, tables = record.execute(case)
     rec = record.abstract(case, obs, result, tables, tid)
+    if events and obs['raised'] == '' and workertrace.eligible(case):
+        try:
+            rec['_worker'] = workertrace.build(case, events, tables, tid)
+        except Exception as exc:                     # hooks changed shape: implementation layer unavailable
+            rec['_worker'] = ('error', '%s: %s' % (type(exc).__name__, exc))
     return rec
 
 
@@ -152,6 +157,34 @@ def generate(tier, seed):
     return [(i + 1, c) for i, c in enumerate(cases)], gen_states
 
 
+def validate_workers(workers, name):
+    """Implementation-layer validation of the worker traces built from hook events."""
+    import os
+    groups, broken = {}, 0
+    for w in workers:
+        if w is None:
+            continue
+        if w[0] == 'error' or w[1] is None:
+            broken += 1
+            continue
+        groups.setdefault(w[0], []).append(w[1])
+    drift, states, validated = [], 0, 0
+    for (meas, mode, ae), recs in sorted(groups.items()):
+        cfg_path = os.path.join(config.workdir('traces'), '%s-%s-%s-%s.cfg' % (name, meas, mode, ae))
+        with open(cfg_path, 'w') as fh:
+            fh.write(workertrace.CFG % (meas, 'TRUE' if ae else 'FALSE', mode))
+        verd, st = runner.validate(recs, 'TraceWorkers', '%s-%s-%s-%s' % (name, meas, mode, ae), batch=1200,
+                                   cfg_path=cfg_path)
+        states += st['states']
+        validated += len(recs)
+        for tid, v in verd.items():
+            if v['fails']:
+                drift.append('%s worker %s/%s/allow_empty=%s trace %s: %s' % (name, mode, meas, ae, tid, sorted(v['fails'])))
+    if broken:
+        drift.append('%s: %d worker runs whose hook events could not be assembled into a trace' % (name, broken))
+    return drift, {'validated': validated, 'groups': len(groups), 'states': states, 'drift': len(drift)}
+
+
 def summarize(case):
     keep = ('kind', 'api', 'meas', 'filt', 'op', 't', 'ae', 'am', 'sc', 'lout', 'rout', 'n_jobs', '_src')
     out = {k: case.get(k) for k in keep}
@@ -165,8 +198,10 @@ def run(tier, seed):
     cases, gen_states = generate(tier, seed)
     runner.log('E3: executing %d cases on the library' % len(cases))
     recs = runner.pmap(run_case, cases)
+    workers = [r.pop('_worker', None) for r in recs]
     runner.log('E3: TLC validates %d traces' % len(recs))
     verdicts, stats = runner.validate(recs, 'TraceAPI', 'e3')
+    drift, wstats = validate_workers(workers, 'e3w')
     by_tid = dict(cases)
     fails = []
     for tid, v in verdicts.items():
@@ -175,11 +210,13 @@ def run(tier, seed):
                           'engine': 'E3'})
     rng = random.Random(seed)
     samples = [summarize(c) for _, c in rng.sample(cases, 3)]
-    return {'engine': 'E3', 'cases': len(cases), 'traces': len(recs),
-            'states': gen_states + stats['states'], 'transitions': stats['transitions'],
-            'fails': fails, 'samples': samples,
+    return {'engine': 'E3', 'cases': len(cases), 'traces': len(recs) + wstats['validated'],
+            'states': gen_states + stats['states'] + wstats['states'], 'transitions': stats['transitions'] + wstats['states'],
+            'fails': fails, 'samples': samples, 'drift': drift,
+            'worker_traces': wstats,
             'spec_runs': ['GenTables/GenStrTables: %d initial states' % gen_states,
-                          'TraceAPI: %d traces in %d TLC runs' % (len(recs), stats['tlc_runs'])],
+                          'TraceAPI: %d traces in %d TLC runs' % (len(recs), stats['tlc_runs']),
+                          'TraceWorkers (implementation layer, hook events): %s' % wstats],
             'exhaustive': True,
             'rule': 'all table pairs enumerated by TLC from spec/GenTables.tla and '
                     'spec/GenStrTables.tla, each under several seeded configurations'}
